@@ -25,6 +25,8 @@ func init() {
 func runC03(c *fw.Ctx) {
 	r31(c)
 	r32(c)
+	r33(c)
+	r34(c)
 }
 
 // typeTable: container kind -> canonical (key, elem) pairs returned.
@@ -299,4 +301,134 @@ func r32(c *fw.Ctx) {
 		})
 	}
 	c.Floor(rule, "Recorder.Member calls", n, 6)
+}
+
+// R3.3: syntax and reported type are wrapped together. In a function that reports a type (returns a
+// types.Type) and, in some branch, rewrites an expression in place into its pointer form
+// (`x = &ast.StarExpr{X: x}`: `T.M` becomes `(*T).M`), the same branch must rewrite the type it reports into
+// the pointer type of the same thing (`t = types.NewPointer(t)`). Otherwise the emitted expression has type
+// func(*T, ...) while the reported type names another receiver.
+func r33(c *fw.Ctx) {
+	const rule = "R3.3"
+	p := c.Pkg("")
+	info := p.TypesInfo
+	n := 0
+	for _, fd := range c.Decls() {
+		if c.PkgOfDecl(fd) != p || fd.Body == nil || fd.Type.Results == nil {
+			continue
+		}
+		returnsType := false
+		for _, f := range fd.Type.Results.List {
+			if t := info.TypeOf(f.Type); t != nil && namedIs(t, "go/types", "Type") {
+				returnsType = true
+			}
+		}
+		if !returnsType {
+			continue
+		}
+		fname := declName(c, fd)
+		ast.Inspect(fd.Body, func(m ast.Node) bool {
+			blk, ok := m.(*ast.BlockStmt)
+			if !ok {
+				return true
+			}
+			var wrapPos token.Pos
+			typeWrapped := false
+			for _, st := range blk.List {
+				as, ok := st.(*ast.AssignStmt)
+				if !ok || len(as.Lhs) != 1 || len(as.Rhs) != 1 || as.Tok != token.ASSIGN {
+					continue
+				}
+				lhs := exprString(as.Lhs[0])
+				// x = &ast.StarExpr{X: x}
+				if u, ok := unparen(as.Rhs[0]).(*ast.UnaryExpr); ok && u.Op == token.AND {
+					if lit, ok := u.X.(*ast.CompositeLit); ok && namedIs(info.TypeOf(lit), "go/ast", "StarExpr") {
+						f := structFields(info, lit)
+						if e := f["X"]; e != nil && exprString(e) == lhs {
+							wrapPos = as.Pos()
+						}
+					}
+				}
+				// t = types.NewPointer(t)
+				if call, ok := unparen(as.Rhs[0]).(*ast.CallExpr); ok && isFunc(callee(info, call), "go/types", "NewPointer") && len(call.Args) == 1 {
+					if exprString(call.Args[0]) == lhs {
+						typeWrapped = true
+					}
+				}
+			}
+			if wrapPos != token.NoPos {
+				n++
+				c.Check(typeWrapped, rule, sprintf("%s/pointer-wrap-pairs-syntax-and-type#%d", fname, n), wrapPos,
+					"the branch rewrites an expression into its pointer form (&ast.StarExpr{X: x}) but does not rewrite the type it reports with types.NewPointer of the same variable: the emitted `(*T).M` has receiver *T, the reported signature another receiver")
+			}
+			return true
+		})
+	}
+	c.Floor(rule, "in-place pointer rewrites in type-reporting functions", n, 1)
+}
+
+// R3.4: implicit repetition in a const block repeats the preceding expression list *and its type, if any*
+// (Go spec, Constant declarations). The pair recorded for a later Next must be the pair of this spec: on
+// every normal path of (*ConstDefs).NewAt both remembered fields are overwritten from this call's
+// parameters (an explicit spec without a type must clear the remembered type).
+func r34(c *fw.Ctx) {
+	const rule = "R3.4"
+	fd, p := needDecl(c, rule, "(*ConstDefs).NewAt")
+	if fd == nil {
+		return
+	}
+	info := p.TypesInfo
+	// fields of ConstDefs that Next/NextAt read for the repetition: those of the type itself (not embedded)
+	tn, _ := p.Types.Scope().Lookup("ConstDefs").(*types.TypeName)
+	if tn == nil {
+		c.Undecided(rule, "anchor/ConstDefs", fd.Pos(), "type ConstDefs not found")
+		return
+	}
+	st, _ := tn.Type().Underlying().(*types.Struct)
+	var fields []*types.Var
+	for i := 0; i < st.NumFields(); i++ {
+		if !st.Field(i).Embedded() {
+			fields = append(fields, st.Field(i))
+		}
+	}
+	params := map[types.Object]bool{}
+	for _, f := range fd.Type.Params.List {
+		for _, nm := range f.Names {
+			params[info.Defs[nm]] = true
+		}
+	}
+	paths, trunc := enumPaths(info, fd.Body)
+	if trunc {
+		c.Undecided(rule, "NewAt/paths", fd.Pos(), "too many paths")
+		return
+	}
+	for _, fld := range fields {
+		nNormal, nSet := 0, 0
+		for _, pa := range paths {
+			if pa.Abnormal {
+				continue
+			}
+			nNormal++
+			set := false
+			for _, nd := range pa.Nodes {
+				as, ok := nd.(*ast.AssignStmt)
+				if !ok || len(as.Lhs) != len(as.Rhs) {
+					continue
+				}
+				for i, l := range as.Lhs {
+					if se, ok := unparen(l).(*ast.SelectorExpr); ok && info.Uses[se.Sel] == fld {
+						if id, ok := unparen(as.Rhs[i]).(*ast.Ident); ok && params[info.Uses[id]] {
+							set = true
+						}
+					}
+				}
+			}
+			if set {
+				nSet++
+			}
+		}
+		c.Check(nNormal > 0 && nSet == nNormal, rule, "NewAt/records-"+fld.Name(), fd.Pos(),
+			"%d of %d normal paths of NewAt overwrite the remembered %s with this spec's parameter: a later implicit repetition (Next) would otherwise repeat an older spec's %s", nSet, nNormal, fld.Name(), fld.Name())
+	}
+	c.Floor(rule, "remembered fields", len(fields), 2)
 }
